@@ -117,11 +117,12 @@ func vhC22CompressHandler() {
 	tail := vBytes("tail", 2)
 	orig := make([]byte, 0, 210)
 	// response shapes: a covering table instead of the full product
-	type shape struct{ small, image, preEncoded, streamed, brotli bool }
+	type shape struct{ small, image, preEncoded, streamed, brotli, raw bool }
 	shapes := [...]shape{
 		{}, {brotli: true}, {streamed: true}, {streamed: true, brotli: true},
 		{small: true}, {image: true, brotli: true}, {preEncoded: true}, {preEncoded: true, streamed: true, brotli: true},
 		{small: true, streamed: true}, {image: true, streamed: true},
+		{raw: true}, {raw: true, brotli: true},
 	}
 	sh := shapes[vChoose("shape", len(shapes))]
 	n := 198
@@ -146,6 +147,8 @@ func vhC22CompressHandler() {
 		}
 		if streamed {
 			ctx.SetBodyStream(bytes.NewReader(orig), -1)
+		} else if sh.raw {
+			ctx.Response.SetBodyRaw(orig)
 		} else {
 			ctx.SetBody(orig)
 		}
